@@ -351,9 +351,9 @@ def _is_assign_attr(attr, val):
 
 
 C19_ADJUDICATED = {
-    "common_structs.py::PathTrie.add_path::paths_to_remove::break under `elem not in node.children`":
+    "common_structs.py::PathTrie.add_path::`paths_to_remove`::break under `elem not in node.children`":
         "trie walk: the new path leaves the trie here, no stored path can be a prefix beyond this point",
-    "common_structs.py::PathTrie._mark_non_terminal::visited::return under `elem not in node.children`":
+    "common_structs.py::PathTrie._mark_non_terminal::`visited`::return under `elem not in node.children`":
         "the path is not stored: nothing to mark or unlink",
 }
 
